@@ -26,6 +26,7 @@ META = {
     "not_decided": "soundness inside imbl / tokio / smallvec / arrayvec / pin-project-lite",
 }
 META["explanation"] += ' R02.1 (closed test and waker push in one critical section) is evaluated here as part of R20.6: a waker parked after close() is never drained and keeps a state -> waker -> task -> subscriber -> state cycle alive.'
+META["explanation"] += " R20.6 only the state's waker list may hold a Waker: no handle type (Subscriber, its lock-flavour states) has a field whose type contains std::task::Waker."
 
 RAW = (r"^std::mem::forget$|ManuallyDrop::<.*>::(new|take|drop|into_inner)$|Box::<.*>::(into_raw|from_raw|leak|into_non_null|from_non_null)$|"
        r"Arc::<.*>::(into_raw|from_raw|increment_strong_count|decrement_strong_count)$|Rc::<.*>::(into_raw|from_raw)$|Weak::<.*>::(into_raw|from_raw)$|"
